@@ -1,2 +1,552 @@
-//! Shared record-data value generator (owned by the C05 harness; used by
-//! C04, C06 and C12 as well). See DESIGN.md §3 C05 for the menus.
+//! Shared record-data VALUE GENERATOR (owned by the C05 harness; reused by
+//! C04 ordering/equality, C06 presentation round trip, C12 signing).
+//! See DESIGN.md §3 "C05" for the menus.
+//!
+//! # What it produces
+//!
+//! For every record type the library implements (and for unknown types and
+//! OPT) the generator enumerates the **full product of per-field boundary
+//! menus** and, for every element of that product, offers
+//!
+//! * the library value built through the library's *public, safe*
+//!   constructors ([`Rd`] = `AllRecordData<Vec<u8>, Name<Vec<u8>>>`), and
+//! * an **independent reference encoding**: the uncompressed wire-format
+//!   RDATA written field by field by this module from the RFC layouts
+//!   (never by calling into `domain`), together with the byte spans of all
+//!   embedded domain names.
+//!
+//! Constructor refusals (`LongRecordData`, `CharStrError`, ...) are expected
+//! results: a refused candidate is counted, not generated.
+//!
+//! # API
+//!
+//! * [`all_values`]`(quick)` / [`zone_values`]`(quick)` — materialised lists
+//!   `(mnemonic, value)`; meant for the *quick* menus (the thorough product
+//!   holds ~10^6 values, some of 64 KiB: stream it instead).
+//! * [`compact_values`]`()` — a small (a few values per type, no field
+//!   above 255 octets) list for pair/triple enumeration (C04) and signing
+//!   (C12).
+//! * [`generators`]`()` + [`TypeGen::run`] — streaming, shardable
+//!   enumeration delivering [`Event`]s (values with their reference
+//!   encoding, plus constructor anomalies).
+//! * [`opt_items`]`(tier)` — every EDNS option type with boundary values.
+//! * [`names`]`()`, [`owners`]`()`, [`name_specs`]`()` — the name menu.
+//!
+//! Everything is deterministic: the n-th candidate of a type is always the
+//! same value.
+
+use crate::guard;
+use domain::base::charstr::CharStr;
+use domain::base::iana::{
+    DigestAlgorithm, Nsec3HashAlgorithm, Rtype, SecurityAlgorithm,
+};
+use domain::base::name::Name;
+use domain::base::rdata::UnknownRecordData;
+use domain::base::{Serial, Ttl};
+use domain::rdata::{self, AllRecordData, ZoneRecordData};
+use std::collections::BTreeMap;
+use std::net::{Ipv4Addr, Ipv6Addr};
+
+/// Octets type of generated values.
+pub type Octs = Vec<u8>;
+/// Name type of generated values.
+pub type Nm = Name<Vec<u8>>;
+/// Any record data.
+pub type Rd = AllRecordData<Octs, Nm>;
+/// Record data allowed in zone files.
+pub type ZRd = ZoneRecordData<Octs, Nm>;
+
+/// Which menus to use.
+#[derive(Clone, Copy, Debug, PartialEq, Eq)]
+pub enum Tier {
+    /// 1-3 values per field, nothing longer than 255 octets.
+    Compact,
+    /// Full menus for types with <= 4 fields, 2-3 values per field else.
+    Quick,
+    /// Full menus everywhere.
+    Thorough,
+}
+
+impl Tier {
+    pub fn from_quick(quick: bool) -> Tier {
+        if quick {
+            Tier::Quick
+        } else {
+            Tier::Thorough
+        }
+    }
+}
+
+//------------ names ---------------------------------------------------------
+
+/// A domain name as a list of labels (without the root label).
+#[derive(Clone, Debug, PartialEq, Eq)]
+pub struct NameSpec {
+    pub tag: &'static str,
+    pub labels: Vec<Vec<u8>>,
+}
+
+impl NameSpec {
+    /// Uncompressed wire form (independent of the library).
+    pub fn wire(&self) -> Vec<u8> {
+        crate::wire::to_wire(&self.labels)
+    }
+    /// The library value (`Name::from_octets` over the reference wire).
+    pub fn name(&self) -> Nm {
+        Name::from_octets(self.wire()).expect("menu name is valid")
+    }
+}
+
+/// The name menu: root, `a.`, `A.b.`, and a 255-octet name with upper- and
+/// lower-case labels (63 'A', 63 'b', 63 'C', 61 'd').
+pub fn name_specs() -> Vec<NameSpec> {
+    vec![
+        NameSpec { tag: "root", labels: vec![] },
+        NameSpec { tag: "a.", labels: vec![b"a".to_vec()] },
+        NameSpec { tag: "A.b.", labels: vec![b"A".to_vec(), b"b".to_vec()] },
+        NameSpec {
+            tag: "max255",
+            labels: vec![vec![b'A'; 63], vec![b'b'; 63], vec![b'C'; 63], vec![b'd'; 61]],
+        },
+    ]
+}
+
+/// The name menu as library values.
+pub fn names() -> Vec<Nm> {
+    name_specs().iter().map(|n| n.name()).collect()
+}
+
+/// Owner names for harnesses that need records: the name menu plus a
+/// wildcard and a case twin.
+pub fn owners() -> Vec<Nm> {
+    let mut v = names();
+    v.push(NameSpec { tag: "*.a.", labels: vec![b"*".to_vec(), b"a".to_vec()] }.name());
+    v.push(NameSpec { tag: "a.B.", labels: vec![b"a".to_vec(), b"B".to_vec()] }.name());
+    v
+}
+
+//------------ octets / menus -----------------------------------------------
+
+/// Deterministic non-uniform fill so that shifted or truncated fields show.
+pub fn fill(len: usize, salt: u8) -> Vec<u8> {
+    (0..len)
+        .map(|i| (i as u8).wrapping_mul(31).wrapping_add(salt).wrapping_add((i >> 8) as u8))
+        .collect()
+}
+
+/// Fill with ASCII letters of both cases (character strings compare
+/// case-insensitively in the library, the octets must still survive).
+pub fn fill_alpha(len: usize) -> Vec<u8> {
+    (0..len)
+        .map(|i| if i % 2 == 0 { b'A' + (i % 26) as u8 } else { b'a' + (i % 26) as u8 })
+        .collect()
+}
+
+/// Length choice for a variable-length octets field.
+#[derive(Clone, Copy, Debug, PartialEq, Eq)]
+pub enum Len {
+    Fixed(usize),
+    /// the largest length that keeps the RDATA at 65535 octets
+    Max,
+    /// one more than that: the constructor is expected to refuse
+    MaxPlus1,
+}
+
+pub struct Menus {
+    pub tier: Tier,
+}
+
+impl Menus {
+    fn reduced(&self, nfields: usize) -> bool {
+        match self.tier {
+            Tier::Compact => true,
+            Tier::Quick => nfields > 4,
+            Tier::Thorough => false,
+        }
+    }
+    pub fn u8s(&self, nfields: usize) -> Vec<u8> {
+        if self.tier == Tier::Compact {
+            vec![1]
+        } else if self.reduced(nfields) {
+            vec![0, 255]
+        } else {
+            vec![0, 1, 255]
+        }
+    }
+    pub fn u16s(&self, nfields: usize) -> Vec<u16> {
+        if self.tier == Tier::Compact {
+            vec![1, 256]
+        } else if self.reduced(nfields) {
+            vec![0, 256, 65535]
+        } else {
+            vec![0, 1, 255, 256, 65535]
+        }
+    }
+    pub fn u32s(&self, nfields: usize) -> Vec<u32> {
+        if self.tier == Tier::Compact {
+            vec![1]
+        } else if self.reduced(nfields) {
+            vec![1, 0x8000_0000]
+        } else {
+            vec![0, 1, 0x8000_0000, 0xFFFF_FFFF]
+        }
+    }
+    pub fn names(&self, nfields: usize) -> Vec<NameSpec> {
+        let all = name_specs();
+        if self.tier == Tier::Compact {
+            vec![all[1].clone(), all[2].clone()]
+        } else if self.reduced(nfields) {
+            vec![all[0].clone(), all[2].clone(), all[3].clone()]
+        } else {
+            all
+        }
+    }
+    /// octets field menu: empty, 1, 255, the type's maximum, maximum+1
+    pub fn lens(&self, nfields: usize) -> Vec<Len> {
+        if self.tier == Tier::Compact {
+            vec![Len::Fixed(0), Len::Fixed(3)]
+        } else if self.reduced(nfields) {
+            vec![Len::Fixed(0), Len::Fixed(255), Len::Max]
+        } else {
+            vec![Len::Fixed(0), Len::Fixed(1), Len::Fixed(255), Len::Max, Len::MaxPlus1]
+        }
+    }
+    /// character-string menu: empty, mixed-case 2 octets, 255 octets.
+    pub fn charstrs(&self, nfields: usize) -> Vec<Vec<u8>> {
+        if self.tier == Tier::Compact {
+            vec![b"Ab".to_vec()]
+        } else if self.reduced(nfields) && self.tier == Tier::Quick && nfields > 5 {
+            vec![vec![], fill_alpha(255)]
+        } else {
+            vec![vec![], b"Ab".to_vec(), fill_alpha(255)]
+        }
+    }
+    /// type bitmap menu (lists of record types)
+    pub fn bitmaps(&self) -> Vec<Vec<u16>> {
+        if self.tier == Tier::Compact {
+            vec![vec![1], vec![1, 47, 46]]
+        } else {
+            vec![
+                vec![],
+                vec![1],
+                vec![1, 47, 46],
+                vec![255],
+                vec![256],
+                vec![65535],
+                vec![1, 257, 0x1234, 65280],
+            ]
+        }
+    }
+}
+
+/// Reference encoding of an RFC 4034 §4.1.2 type bitmap.
+pub fn bitmap_wire(types: &[u16]) -> Vec<u8> {
+    let mut windows: BTreeMap<u8, [u8; 32]> = BTreeMap::new();
+    for &t in types {
+        let w = windows.entry((t >> 8) as u8).or_insert([0u8; 32]);
+        let low = (t & 0xFF) as usize;
+        w[low / 8] |= 0x80 >> (low % 8);
+    }
+    let mut out = Vec::new();
+    for (n, w) in windows {
+        let len = 32 - w.iter().rev().take_while(|b| **b == 0).count();
+        out.push(n);
+        out.push(len as u8);
+        out.extend_from_slice(&w[..len]);
+    }
+    out
+}
+
+//------------ reference writer ---------------------------------------------
+
+/// Field-by-field reference RDATA writer. Also collects the description of
+/// the candidate and whether it is representable in wire format at all.
+#[derive(Clone, Debug, Default)]
+pub struct Ref {
+    pub wire: Vec<u8>,
+    pub names: Vec<(usize, usize)>,
+    pub desc: Vec<String>,
+    /// set when some field cannot be represented (over-long length field)
+    pub unrepresentable: Option<String>,
+}
+
+impl Ref {
+    pub fn new() -> Ref {
+        Ref::default()
+    }
+    pub fn u8(&mut self, tag: &str, v: u8) -> u8 {
+        self.wire.push(v);
+        self.desc.push(format!("{tag}={v}"));
+        v
+    }
+    pub fn u16(&mut self, tag: &str, v: u16) -> u16 {
+        self.wire.extend_from_slice(&v.to_be_bytes());
+        self.desc.push(format!("{tag}={v}"));
+        v
+    }
+    pub fn u32(&mut self, tag: &str, v: u32) -> u32 {
+        self.wire.extend_from_slice(&v.to_be_bytes());
+        self.desc.push(format!("{tag}={v}"));
+        v
+    }
+    pub fn u48(&mut self, tag: &str, v: u64) -> u64 {
+        if v >> 48 != 0 {
+            self.unrepresentable = Some(format!("{tag} exceeds 48 bits"));
+        }
+        self.wire.extend_from_slice(&v.to_be_bytes()[2..]);
+        self.desc.push(format!("{tag}={v}"));
+        v
+    }
+    /// raw octets, no length prefix
+    pub fn raw(&mut self, tag: &str, b: &[u8]) -> Vec<u8> {
+        self.wire.extend_from_slice(b);
+        self.desc.push(format!("{tag}=[{}B]", b.len()));
+        b.to_vec()
+    }
+    /// octets that are part of the encoding but not a field of their own
+    pub fn lit(&mut self, b: &[u8]) {
+        self.wire.extend_from_slice(b);
+    }
+    /// octets with a one-octet length prefix
+    pub fn len8(&mut self, tag: &str, b: &[u8]) -> Vec<u8> {
+        if b.len() > 255 {
+            self.unrepresentable = Some(format!("{tag} longer than 255 octets"));
+        }
+        self.wire.push(b.len() as u8);
+        self.wire.extend_from_slice(b);
+        self.desc.push(format!("{tag}=<{}B>", b.len()));
+        b.to_vec()
+    }
+    /// octets with a two-octet length prefix
+    pub fn len16(&mut self, tag: &str, b: &[u8]) -> Vec<u8> {
+        if b.len() > 65535 {
+            self.unrepresentable = Some(format!("{tag} longer than 65535 octets"));
+        }
+        self.wire.extend_from_slice(&(b.len() as u16).to_be_bytes());
+        self.wire.extend_from_slice(b);
+        self.desc.push(format!("{tag}=<<{}B>>", b.len()));
+        b.to_vec()
+    }
+    pub fn name(&mut self, tag: &str, n: &NameSpec) -> Nm {
+        let w = n.wire();
+        self.names.push((self.wire.len(), w.len()));
+        self.wire.extend_from_slice(&w);
+        self.desc.push(format!("{tag}={}", n.tag));
+        n.name()
+    }
+    pub fn note(&mut self, s: String) {
+        self.desc.push(s);
+    }
+    /// octets field whose length is a [`Len`] choice; `rest` is the number
+    /// of RDATA octets contributed by everything else (including this
+    /// field's own length prefix, if any).
+    pub fn resolve(len: Len, rest: usize) -> usize {
+        match len {
+            Len::Fixed(n) => n,
+            Len::Max => 65535usize.saturating_sub(rest),
+            Len::MaxPlus1 => 65536usize.saturating_sub(rest),
+        }
+    }
+}
+
+//------------ events -------------------------------------------------------
+
+/// One generated value with its independent reference encoding.
+#[derive(Clone)]
+pub struct Value {
+    /// type mnemonic ("A", "RRSIG", "TYPE65280", ...)
+    pub mnemonic: &'static str,
+    /// numeric record type
+    pub rtype: u16,
+    /// candidate index within the type's enumeration (for replay)
+    pub index: u64,
+    /// the library value
+    pub data: Rd,
+    /// reference uncompressed wire-format RDATA
+    pub wire: Vec<u8>,
+    /// (offset, length) of every embedded domain name within `wire`
+    pub names: Vec<(usize, usize)>,
+    /// field choices, human readable
+    pub desc: String,
+}
+
+/// What the enumeration of one candidate yields.
+pub enum Event {
+    /// The constructor accepted a wire-representable candidate.
+    Value(Value),
+    /// The constructor refused the candidate (expected for over-long ones).
+    Refused { mnemonic: &'static str, index: u64, desc: String, error: String, representable: bool },
+    /// The constructor accepted a candidate that has no wire representation
+    /// (a length field would overflow, RDATA above 65535 octets).
+    AcceptedUnrepresentable { mnemonic: &'static str, rtype: u16, index: u64, desc: String, why: String, data: Rd },
+    /// The constructor panicked.
+    CtorPanic { mnemonic: &'static str, index: u64, desc: String, msg: String, representable: bool },
+}
+
+/// Sink handed to the per-type generators.
+pub struct Sink<'a> {
+    mnemonic: &'static str,
+    rtype: u16,
+    shard: usize,
+    nshards: usize,
+    next: u64,
+    cur: u64,
+    f: &'a mut dyn FnMut(Event),
+}
+
+impl Sink<'_> {
+    /// Advance to the next candidate; false if another shard owns it.
+    pub fn want(&mut self) -> bool {
+        self.cur = self.next;
+        self.next += 1;
+        (self.cur % self.nshards as u64) as usize == self.shard
+    }
+    /// Offer a candidate: `ctor` builds the library value.
+    pub fn offer(&mut self, mut r: Ref, ctor: impl FnOnce() -> Result<Rd, String>) {
+        if r.unrepresentable.is_none() && r.wire.len() > 65535 {
+            r.unrepresentable = Some(format!("RDATA of {} octets", r.wire.len()));
+        }
+        let desc = format!("{}[{}]", self.mnemonic, r.desc.join(","));
+        let ev = match guard(ctor) {
+            Ok(Ok(data)) => match r.unrepresentable {
+                None => Event::Value(Value {
+                    mnemonic: self.mnemonic,
+                    rtype: self.rtype,
+                    index: self.cur,
+                    data,
+                    wire: r.wire,
+                    names: r.names,
+                    desc,
+                }),
+                Some(why) => Event::AcceptedUnrepresentable {
+                    mnemonic: self.mnemonic,
+                    rtype: self.rtype,
+                    index: self.cur,
+                    desc,
+                    why,
+                    data,
+                },
+            },
+            Ok(Err(error)) => Event::Refused {
+                mnemonic: self.mnemonic,
+                index: self.cur,
+                desc,
+                error,
+                representable: r.unrepresentable.is_none(),
+            },
+            Err(msg) => Event::CtorPanic {
+                mnemonic: self.mnemonic,
+                index: self.cur,
+                desc,
+                msg,
+                representable: r.unrepresentable.is_none(),
+            },
+        };
+        (self.f)(ev);
+    }
+}
+
+/// The generator of one record type.
+#[derive(Clone, Copy)]
+pub struct TypeGen {
+    pub mnemonic: &'static str,
+    pub rtype: u16,
+    /// allowed in zone files (member of `ZoneRecordData`)
+    pub zone: bool,
+    gen: fn(&Menus, &mut Sink),
+}
+
+impl TypeGen {
+    /// Enumerate the candidates `i` of this type with `i % nshards == shard`
+    /// (constructors of the others are not even called).
+    pub fn run(&self, tier: Tier, shard: usize, nshards: usize, f: &mut dyn FnMut(Event)) -> u64 {
+        let m = Menus { tier };
+        let mut s = Sink {
+            mnemonic: self.mnemonic,
+            rtype: self.rtype,
+            shard,
+            nshards: nshards.max(1),
+            next: 0,
+            cur: 0,
+            f,
+        };
+        (self.gen)(&m, &mut s);
+        s.next
+    }
+}
+
+fn es<E: std::fmt::Display>(e: E) -> String {
+    e.to_string()
+}
+
+fn cs(b: &[u8]) -> Result<CharStr<Octs>, String> {
+    CharStr::from_octets(b.to_vec()).map_err(|e| format!("CharStrError: {e}"))
+}
+
+/// Odometer over index vectors.
+fn prod(sizes: &[usize], mut f: impl FnMut(&[usize])) {
+    crate::product(sizes, |i| f(i));
+}
+
+include!("rgen_types.rs");
+include!("rgen_opt.rs");
+
+//------------ convenience API ------------------------------------------------
+
+/// Statistics of a materialising call.
+#[derive(Clone, Debug, Default)]
+pub struct GenStats {
+    pub generated: BTreeMap<&'static str, u64>,
+    pub refused: BTreeMap<&'static str, u64>,
+    pub anomalies: BTreeMap<&'static str, u64>,
+}
+
+/// All values of all types for the given tier, with their reference
+/// encodings. Intended for `Tier::Compact` and `Tier::Quick`.
+pub fn values_ex(tier: Tier) -> (Vec<Value>, GenStats) {
+    let mut out = Vec::new();
+    let mut st = GenStats::default();
+    for g in generators() {
+        g.run(tier, 0, 1, &mut |ev| match ev {
+            Event::Value(v) => {
+                *st.generated.entry(g.mnemonic).or_insert(0) += 1;
+                out.push(v);
+            }
+            Event::Refused { .. } => *st.refused.entry(g.mnemonic).or_insert(0) += 1,
+            _ => *st.anomalies.entry(g.mnemonic).or_insert(0) += 1,
+        });
+    }
+    (out, st)
+}
+
+/// `(type mnemonic, value)` for every record type (including OPT and
+/// unknown types). `tier_quick == false` materialises the thorough product
+/// (large: prefer [`generators`]).
+pub fn all_values(tier_quick: bool) -> Vec<(&'static str, Rd)> {
+    values_ex(Tier::from_quick(tier_quick)).0.into_iter().map(|v| (v.mnemonic, v.data)).collect()
+}
+
+/// A small list (a few values per type, fields <= 255 octets).
+pub fn compact_values() -> Vec<(&'static str, Rd)> {
+    values_ex(Tier::Compact).0.into_iter().map(|v| (v.mnemonic, v.data)).collect()
+}
+
+/// The subset that may appear in zone files, as `ZoneRecordData`.
+pub fn zone_values_tier(tier: Tier) -> Vec<(&'static str, ZRd)> {
+    let mut out = Vec::new();
+    for g in generators().into_iter().filter(|g| g.zone) {
+        g.run(tier, 0, 1, &mut |ev| {
+            if let Event::Value(v) = ev {
+                let r: Result<ZRd, Rd> = v.data.into();
+                if let Ok(z) = r {
+                    out.push((g.mnemonic, z));
+                }
+            }
+        });
+    }
+    out
+}
+
+pub fn zone_values(tier_quick: bool) -> Vec<(&'static str, ZRd)> {
+    zone_values_tier(Tier::from_quick(tier_quick))
+}
